@@ -73,7 +73,7 @@ def run(ctx):
     drive(ctx, "SenderSched", "bfs3", 3, None, None, "TestSender", {}, named)
     drive(ctx, "SenderSched", "sim9", 9, "num=%d" % (300 if quick else 10000), 10, "TestSender", {}, named)
     drive(ctx, "BackendSched", "bfs2", 2, None, None, "TestBackends", {"VERIF_EVERY": "4" if quick else "1"}, named)
-    drive(ctx, "BackendSched", "sim7", 7, "num=%d" % (40 if quick else 1500), 8, "TestBackends", {"VERIF_EVERY": "1"}, named)
+    drive(ctx, "BackendSched", "sim7", 7, "num=%d" % (40 if quick else 800), 8, "TestBackends", {"VERIF_EVERY": "1"}, named)
     for need in ("hundred-streams", "dial-fails", "write-fails", "request-cancelled", "cancel", "fail:429ra", "fail:slow", "batches:0", "batches:3",
                  "variant:datadog", "variant:graphite/tags", "variant:cloudwatch", "variant:otlp/AsGauge"):
         if named.get(need, 0) == 0 and not (ctx.violations or locals().get("fails")):  # no vacuity verdict once something was found
